@@ -41,7 +41,8 @@ Inductive xnode :=
 | XRes (r : nat) (e : expr)
 | XAlign (a : nat) (e : expr)
 | XAddr (a : nat) (e : expr)
-| XBank (b : nat).                   (* #bankdef (its own bank) or #bank: bank_ref := b *)
+| XBank (b : nat)                    (* #bankdef (its own bank) or #bank: bank_ref := b *)
+| XAssert (e : expr).                (* #assert condition (resolver/assert.rs); does not move the cursor *)
 
 (* a node with the SymbolContext the iterator holds at it *)
 Definition cnode := (xnode * list text)%type.
@@ -72,6 +73,7 @@ Definition view (st : state) (n : xnode) : Cursor.node :=
   | XAlign a _ => Cursor.NAlign (Z.to_N (nth a (s_align st) 0))
   | XAddr a _ => Cursor.NAddr (nth a (s_addr st) 0)
   | XBank b => Cursor.NBank b
+  | XAssert _ => Cursor.NOther
   end.
 
 (* ------------------------------------------------------------------ variables *)
@@ -327,6 +329,21 @@ Definition resolve_node2 (n : xnode) (ctx : list text) (st : state) (b : Cursor.
       end
     end
   | XBank _ => Ok (st, Resolved)                                        (* ResolverNode::None *)
+  | XAssert e =>
+    (* resolver/assert.rs: before the last pass the condition is NOT evaluated and the node reports Unresolved, so a
+       program with an #assert always runs to its last allowed pass; on the last pass: evaluation error -> Err,
+       a value that is not a boolean (expect_bool: "expected boolean") -> Err, false -> "assertion failed".
+       The code REPORTS "assertion failed", lets the pass go on and returns Resolved; the error then fails the assembly
+       at `report.stop_at_errors()` right after resolve_iteratively, before any output is built.  The resolver models
+       carry no report, so the reported error is the result Err here (as for every other report-and-continue site);
+       nothing a later node of the same pass does can turn that failure into a success. *)
+    if negb last then Ok (st, Unresolved) else
+    match eval code_ops pv e [] with
+    | EErr => Err
+    | EOk (VBool true, _) => Ok (st, Resolved)
+    | EOk (VBool false, _) => Err                                       (* "assertion failed" *)
+    | EOk (_, _) => Err                                                 (* "expected boolean" *)
+    end
   end.
 
 (* one round of `while let Some(ctx) = iter.next(..)?`: advance past the previous node, enter this one
@@ -424,7 +441,8 @@ Inductive pnode :=
 | PAlign (e : expr)
 | PAddr (e : expr)
 | PBankdef (name : text) (f : bankfields)
-| PBank (name : text).
+| PBank (name : text)
+| PAssert (e : expr).
 
 Definition anode_of (p : pnode) : Symbols.anode :=
   match p with
@@ -474,6 +492,7 @@ Fixpoint build_nodes (bn : list text) (ps : list pnode) (ast : list Symbols.anod
         match find_sym bn n 0 with                                      (* get_by_name_global: "unknown bank" *)
         | Some i => Some ([(XBank (S i), c)], k)
         | None => None end
+      | PAssert e, Symbols.AOther => Some ([(XAssert e, c)], k)
       | _, _ => None
       end in
     match one with
